@@ -127,6 +127,18 @@ def cases(tier, rng, schema, feats):
                 v = gen.show(("R", fs))
                 for cap in [c for c in CAPS if c <= 129] + list(range(11, 81)):
                     add(variant, cap, "-", v)
+    # the advertised algorithm list with identifiers the request decoder would never keep (any i32 is a legal value of the public
+    # field): the message fits, so it must be delivered - at its exact size, one more, and the usual large capacities
+    gi_t = RESPONSES.get("GetInfo")
+    if gi_t:
+        for a in list(range(-70, 8)) + [-257, -65536, 255, 65536, 2**31 - 1, -(2**31)]:
+            for algs in ([a], [-7, a]):
+                base = g.named_val(gi_t, present=frozenset(["algorithms"]))
+                lst = ("L", [("R", [("alg", ("i", x))]) for x in algs])
+                fs = [(l, ("S", lst) if l == "algorithms" else x) for l, x in base[1]]
+                v = gen.show(("R", fs))
+                for cap in (64, 80, 96, 100, 128, 256, 7609):
+                    add("GetInfo", cap, "-", v)
     return out
 
 
